@@ -6,12 +6,15 @@ From Hv Require Import Prelude Bytes TablesHttp TablesConfig Http Krauss Routing
   Config Server ServerProofs.
 Open Scope N_scope.
 
-(* C06: what the server returns with status 200 from a `directory` route is the content of a regular file under the
-   configured directory *)
+(* C06: a 200 answer of the server comes from the route the App matched (ch), and when that route is a `directory` route
+   the body is the content of a regular file under the configured directory *)
 Theorem C06_server_directory_confined :
   forall ipp fs (c : config) p req body ct,
     server_response ipp fs c p req = SStatic (R200 body ct) ->
-    exists ch rt, get_route c (fst (handler_ids ch)) (snd (handler_ids ch)) = Some rt /\
+    exists ch rt,
+      get_handler (map subapp_of (cf_hosts c)) (subapp_of (cf_default_host c))
+                  (option_map scalars (hget (HKnown H_Host) (r_headers req))) (scalars (r_uri req)) = Some ch /\
+      get_route c (fst (handler_ids ch)) (snd (handler_ids ch)) = Some rt /\
       (rt_type rt = RT_Directory ->
        forall d root, rt_path rt = Some d -> walk fs [] (split_on SLASH (trim_end_slashes d)) = Some root ->
        exists loc, under root loc /\ node_at fs loc = Some (File body)).
